@@ -1,4 +1,5 @@
 """C10 — progressive merging never re-aligns a finished sub-alignment."""
+import os
 from lib import common as C
 from lib import gen, sysrun
 from lib.sysrun import Case
@@ -6,7 +7,7 @@ from props import c01
 
 LEVEL = "proof"
 THEOREMS = ["Kalign.weave", "Kalign.C10_subalignment_preserved", "Kalign.C10_column_mates_stay", "Kalign.C01_tree_integrity"]
-CHECKER = "lake build KalignModel.Props.PipelineFile && lake env lean KalignModel/Audit/C10.lean"
+CHECKER = "lake build KalignModel.Props.C10Pipeline && lake env lean KalignModel/Audit/C10.lean"
 
 
 def linear(seq, gaps):
@@ -102,7 +103,9 @@ def run(ctx):
     ctx.cov["_rule"] = ("real runs with the NODE_DONE hook: snapshot of member gap vectors when a node completes vs projection of the final "
                         "alignment onto the node's members; non-trivial = (input, node) pairs where the node has >= 2 members, is not the root and "
                         "the final projection needed >= 1 all-gap column to be dropped")
-    ok = C.lean_obligations(ctx, "C10", THEOREMS + C.pipefile_theorems(["recAln_"]), module="PipelineFile")
+    px = os.path.join(C.LEAN, "KalignModel", "Props", "C10Pipeline.theorems")
+    extra = [l.strip() for l in open(px) if l.strip() and not l.startswith("#")] if os.path.exists(px) else []
+    ok = C.lean_obligations(ctx, "C10", THEOREMS + C.pipefile_theorems(["recAln_"]) + extra, module="C10Pipeline")
     kvh = C.build_harness("asan")
     cs = cases(ctx, 60 if ctx.quick else 500, not ctx.quick)
     sysrun.run_cases(kvh, cs)
